@@ -102,6 +102,10 @@ func c20Thread(seed uint64, nops int) string {
 				ser.CompressMode(compModes[r.Intn(4)])
 				blob, pan := safeSerialize(ser, reuse)
 				if pan == "" {
+					// the serialized bytes themselves are part of what the goroutine observes: the
+					// compressors come from package-level pools, and what another goroutine did with
+					// its own Serializer must not change them
+					h.Write(blob)
 					ser.CompressMode(compModes[r.Intn(4)])
 					// a damaged copy of the blob first (a failing decode must not disturb
 					// the shared decoder pools other goroutines draw from)
@@ -294,7 +298,7 @@ func init() {
 }
 
 func checkC20(c *Ctx) {
-	c.Ev.Coverage.Rule = "a harness binary built with the Go race detector (-race) runs N goroutines (2, 8, 32, 64), each a seeded random sequence of Parse (both sides of the 8 KiB threshold, with per-goroutine reuse), ParseND, ParseNDStream, traversal, Clone+edit+marshal, Serialize/Deserialize in all modes on its OWN objects, under GOMAXPROCS 1..16; each goroutine's digest of everything it observed is compared with the same sequence run alone; plus clone hand-offs: clones made with Clone(nil)/Clone(&zero)/Clone(earlier clone) are edited, read and deserialized into by a second goroutine while the first keeps parsing into and editing the original; any race-detector report or digest mismatch is a violation. non-trivial = concurrent run completed; distinct = by (seed, N, GOMAXPROCS)"
+	c.Ev.Coverage.Rule = "a harness binary built with the Go race detector (-race) runs N goroutines (2, 8, 32, 64), each a seeded random sequence (digest of everything observed, serialized bytes included) of Parse (both sides of the 8 KiB threshold, with per-goroutine reuse), ParseND, ParseNDStream, traversal, Clone+edit+marshal, Serialize/Deserialize in all modes on its OWN objects, under GOMAXPROCS 1..16; each goroutine's digest of everything it observed is compared with the same sequence run alone; plus clone hand-offs: clones made with Clone(nil)/Clone(&zero)/Clone(earlier clone) are edited, read and deserialized into by a second goroutine while the first keeps parsing into and editing the original; any race-detector report or digest mismatch is a violation. non-trivial = concurrent run completed; distinct = by (seed, N, GOMAXPROCS)"
 	race := filepath.Join(c.Verif, "build", "vcheck_race")
 	if _, err := os.Stat(race); err != nil {
 		c.Ev.Note("race-enabled harness binary missing: " + err.Error())
